@@ -53,6 +53,54 @@ end
 
 def inBlock (b : Block) (k : Kids) : Kids := k.filter fun c => b.names.contains c.2
 
+/-- restriction of a word to a set of names -/
+def restr (S : List Nat) (w : List Nat) : List Nat := w.filter fun x => S.contains x
+
+/-- where a child named `n` would go, given the names `w` of the present children -/
+inductive Where | absent | ok | maxOccurs | anotherChosen
+  deriving DecidableEq, Repr
+
+mutual
+def place (w : List Nat) (n : Nat) : Particle → Where
+  | .elem m _ ma => if m == n then (if leMax (cnt w n + 1) ma then .ok else .maxOccurs) else .absent
+  | .seq _ _ ps => placeL w n ps
+  | .choice _ ma ps =>
+    if (Particle.leavesL ps).contains n then
+      match ma with
+      | none => .ok
+      | some _ =>
+        match restr (Particle.leavesL ps) w with
+        | [] => .ok
+        | m :: _ => if m == n then .maxOccurs else .anotherChosen
+    else .absent
+  | .group _ _ _ p => place w n p
+def placeL (w : List Nat) (n : Nat) : List Particle → Where
+  | [] => .absent
+  | p :: ps => match place w n p with
+    | .absent => placeL w n ps
+    | r => r
+end
+
+/-- add_child without an explicit forward index -/
+def addPlain (p : Particle) (k : Kids) (cid n : Nat) : Except Err Kids :=
+  match place (names k) n p with
+  | .absent => .error .wrongElement
+  | .ok => .ok (k ++ [(cid, n)])
+  | .maxOccurs => .error .maxOccurs
+  | .anotherChosen => .error .anotherChosen
+
+/-- the rejections specific to an explicit `forward` index (none: the index is usable) -/
+def fwdCheck (p : Particle) (k : Kids) (n : Nat) (fwd : Option Int) : Option Err :=
+  match fwd, ((blocks p).find? fun b => b.names.contains n) with
+  | none, _ => none
+  | some _, none => none          -- unknown name: reported by addPlain as wrongElement
+  | some f, some b =>
+    let here := inBlock b k
+    if !b.slot then (if fwdOk (some f) then none else some .anotherChosen)
+    else match here with
+      | _ :: _ => some (fwdErrChoice b.max here n f)
+      | [] => if fwdOk (some f) then none else some .anotherChosen
+
 /-- schema-ordered view -/
 def ordered (p : Particle) (k : Kids) : Kids := (blocks p).flatMap fun b => inBlock b k
 
@@ -60,24 +108,9 @@ def findBlock (p : Particle) (n : Nat) : Option Block := (blocks p).find? fun b 
 
 /-- add_child -/
 def add (p : Particle) (k : Kids) (cid n : Nat) (fwd : Option Int := none) : Except Err Kids :=
-  match findBlock p n with
-  | none => .error .wrongElement
-  | some b =>
-    let here := inBlock b k
-    if !b.slot then
-      if !fwdOk fwd then .error .anotherChosen
-      else if leMax (here.length + 1) b.max then .ok (k ++ [(cid, n)]) else .error .maxOccurs
-    else
-      match fwd, here with
-      | some f, _ :: _ => .error (fwdErrChoice b.max here n f)
-      | _, _ =>
-        if !fwdOk fwd then .error .anotherChosen
-        else match b.max with
-          | none => .ok (k ++ [(cid, n)])
-          | some _ =>
-            match here with
-            | [] => .ok (k ++ [(cid, n)])
-            | (_, m) :: _ => if m == n then .error .maxOccurs else .error .anotherChosen
+  match fwdCheck p k n fwd with
+  | some e => .error e
+  | none => addPlain p k cid n
 
 -- names the final check reports: under-filled element leaves and empty required slots of every
 -- scope that is required or non-empty
